@@ -72,10 +72,11 @@ impl Parser {
 
         let mut parsed_schemas = Vec::with_capacity(self.parsed_schemas.len());
         for name in self.input_order.drain(0..) {
+            // An input whose `type` is itself a named type is registered under the name of that type
             let parsed = self
                 .parsed_schemas
                 .remove(&name)
-                .expect("One of the input schemas was unexpectedly not parsed");
+                .ok_or_else(|| Details::SchemaResolutionError(name.clone()))?;
             parsed_schemas.push(parsed);
         }
         Ok(parsed_schemas)
